@@ -69,6 +69,8 @@ ASSUMPTIONS = ['remove_model is only called for registered models (an unregister
                'async dispatch with a raising model is not modelled (gather keeps the other triggers running); the extra check '
                'dispatch_propagates_exceptions asserts on every class and queue mode that the exception leaves dispatch, that no '
                'model gets the event twice and that the models before the raising one get it once',
+               'add_model from a callback of a transition declared inside a nested state (hierarchical classes) is checked on '
+               'the implementation only (extra check add_model_from_nested_callback); the Coq histories are top-level calls',
                'state features: Timeout is not modelled (C17); its per-model timers and Retry\'s per-model counters are '
                'checked on the implementation by the extra check features_interleaved_equals_solo (every model\'s outcome '
                'in an interleaved history = its solo run; a model in a timeout state owns a live timer)',
@@ -1477,6 +1479,71 @@ def _dispatch_raises_probe(cname, queued, variant, raiser):
     return ok, d
 
 
+class SpawnObj(object):
+    """model of the nested-callback probe: a callback of a transition declared INSIDE a nested state adds models"""
+    def __init__(self):
+        self.spawned = []
+        self.hits = 0
+
+    def count(self, *args, **kwargs):
+        self.hits += 1
+
+    def spawn(self, *args, **kwargs):
+        a, b = SpawnObj(), FalsySpawn()
+        a.machine = b.machine = self.machine
+        self.machine.add_model(a)                       # the machine's initial state
+        self.machine.add_model(b, initial='job')        # its own initial state, which has an initial child
+        self.machine.add_model(self)                    # a registered model again: no effect
+        self.spawned += [a, b]
+
+
+class FalsySpawn(SpawnObj):
+    def __bool__(self):
+        return False
+
+    def __len__(self):
+        return 0
+
+
+def _nested_add_probe(cname, queued):
+    """add_model performed from a callback of a transition declared inside a nested state's definition (the machine's
+    scope is that state while the callback runs): the late models are registered once, sit in the configuration of
+    the machine's / their own initial state, own every trigger and state check, and dispatch reaches each model once"""
+    flat._import_transitions()
+    cls = flat.get_class(cname)
+    first = SpawnObj()
+    states = ['idle',
+              {'name': 'job', 'initial': 'setup', 'children': ['setup', 'run', 'done'],
+               'transitions': [{'trigger': 'begin', 'source': 'setup', 'dest': 'run', 'after': 'spawn'},
+                               ['finish', 'run', 'done']]}]
+    m = cls(model=first, states=states, initial='idle', queued=queued, auto_transitions=False,
+            transitions=[['submit', 'idle', 'job'], ['reset', 'job', 'idle'],
+                         dict(trigger='ping', source='*', dest=None, before='count')], **flat.class_kwargs(cname))
+    first.machine = m
+    _run(first.submit())
+    _run(first.begin())
+    if len(first.spawned) != 2:
+        return False, dict(cls=cname, queued=queued, spawned=len(first.spawned))
+    a, b = first.spawned
+    d = dict(cls=cname, queued=queued, models=len(m.models), states=[str(x.state) for x in m.models])
+    ok = list(m.models) == [first, a, b] and (first.state, a.state, b.state) == ('job_run', 'idle', 'job_setup')
+    for x in (a, b):
+        for name in ('trigger', 'may_trigger', 'submit', 'may_submit', 'begin', 'finish', 'reset', 'ping', 'is_idle',
+                     'is_job', 'to'):
+            if not hasattr(x, name):
+                ok = False
+                d.setdefault('missing', []).append(name)
+    if ok:
+        ok = a.is_idle() and b.is_job(allow_substates=True) and not a.is_job(allow_substates=True)
+    r = _run(m.dispatch('ping'))
+    d['dispatch'] = [bool(r), [x.hits for x in (first, a, b)]]
+    ok = ok and bool(r) and [x.hits for x in (first, a, b)] == [1, 1, 1]
+    ok = ok and bool(_run(b.begin())) and (first.state, a.state, b.state) == ('job_run', 'idle', 'job_run')
+    # (b.begin spawned two more models)
+    ok = ok and len(m.models) == 5
+    return ok, d
+
+
 def extra_checks(tier, seed):
     gc.collect()
     gc.freeze()         # the driver holds all cases and observations: keep them out of the probes' collections
@@ -1535,6 +1602,21 @@ def _extra_checks(tier, seed):
                                     failing_clause='dispatch: the event raises for one model (invalid trigger / raising '
                                                    'callback) but dispatch does not raise it, or a model received the event '
                                                    'twice, or a model registered before the raising one did not receive it')
+    nbad, nn = None, 0
+    for cname in CLASSES:
+        if 'Hierarchical' not in cname:
+            continue
+        for queued in [False, True] + (['model'] if 'Async' in cname else []):
+            nn += 1
+            try:
+                okn, d = _nested_add_probe(cname, queued)
+            except BaseException as ex:  # noqa
+                okn, d = False, dict(cls=cname, queued=queued, error='%s: %s' % (type(ex).__name__, ex))
+            if not okn and nbad is None:
+                nbad = dict(kind='oracle', check='add_model_from_nested_callback', observed=d,
+                            failing_clause='late_model: add_model from a callback of a transition declared inside a nested '
+                                           'state failed or left the model half registered (state / helpers / dispatch)')
+    out.append(('add_model_from_nested_callback', nbad is None, dict(configurations=nn, all_ok=nbad is None), nbad or {}))
     out.append(('dispatch_propagates_exceptions', dbad is None,
                 dict(configurations=dn, classes=len(CLASSES), variants='invalid trigger, raising callback; raiser first/middle/last',
                      all_ok=dbad is None), dbad or {}))
